@@ -23,15 +23,14 @@ CONNECT_NOTE = (" The Connect model takes what a response body makes the Connect
                 "included) with the model on every run. net/http is scripted, not verified: http.Client.Do with a custom RoundTripper calls RoundTrip "
                 "synchronously, wraps its error in *url.Error and hands the same *http.Request (same Body) through; a real Transport's header validation "
                 "and body handling are outside. Cancellation is modelled where the code observes it (inside RoundTrip, inside Read, in the select of a wait); "
-                "a context that is already done when Connect starts (first select: timer 0 vs Done, either may win in Go) is a script input of the model "
-                "and is not exercised by the harness; a cancellation during an attempt whose own error is not the context's is observed only by the "
+                "a context that is already done when Connect is called makes the first select take either branch (timer 0 vs Done); the model returns the context's error without a request, and the harness exercises it with a RoundTripper that - like a real transport - fails a request on a done context with the context's error without serving it, so both branches give the same observation; a cancellation during an attempt whose own error is not the context's is observed only by the "
                 "following select (covered in the model through the 'patience' input, in the harness only for waits >= 0.9 s, which is what makes "
                 "the outcome independent of timing).")
 
 CONNECT_RULE = ("random scripts of 1-8 attempts {transport error, cancellation inside RoundTrip, validator rejection, accepted stream} with bodies from an "
                 "event-stream grammar (data/id/event/retry fields incl. empty and NUL ids, signed/overlong/invalid retry values, comments, unknown fields, BOM, "
                 "LF/CRLF/CR) ending on an event boundary / in mid-event / in mid-line, delivered whole, byte-wise or in random chunks, the end reported with or "
-                "after the last bytes: clean EOF, injected read error, cancellation inside Read (immediate or blocking until another goroutine cancels); "
+                "after the last bytes: clean EOF, injected read error, cancellation inside Read (immediate or blocking until another goroutine cancels); the context already cancelled before Connect (1 script in 25); "
                 "body kinds none / NoBody / body without GetBody / with GetBody / GetBody failing after k calls; OnRetry set or not; an initial Last-Event-ID header "
                 "sometimes present; Backoff: microsecond intervals, Jitter -1, Multiplier 1 / 1.5 / 2, MaxInterval unset / = initial / 2x, MaxRetries -1 / 0 / 1 / 2 / 3 / 5, "
                 "MaxElapsedTime unset / 1 ns / 1 h; server retry values >= 0.9 s lead to cancellation inside OnRetry; plus a sweep: endings (EOF / error / "
